@@ -1,28 +1,36 @@
 #!/bin/bash
-# Records which rules of which checks report each seeded change: seeded/CATCH_MATRIX.json
+# Records which rules of which checks report each seeded change (all 17 checks are run): seeded/CATCH_MATRIX.json.
+# For round-3 seeds the list of reporting checks is also written into their meta.json (checks_that_report_it).
 cd /verif
-python3 - <<'PY'
-import json, os, re, subprocess
-out = {}
+python3 - "$@" <<'PY'
+import json, os, re, subprocess, sys
+only = sys.argv[1:]
+path = 'seeded/CATCH_MATRIX.json'
+out = json.load(open(path)) if os.path.exists(path) else {}
 for n in sorted(os.listdir('seeded')):
     d = 'seeded/' + n
     if not os.path.isdir(d) or n.startswith('equiv-'):
         continue
-    m = json.load(open(d + '/meta.json'))
-    by = m.get('checks_that_report_it') or m.get('confirmed_by_me', {}).get('checks_that_report_it') or []
-    r = subprocess.run(['tools/try_patch_par.sh', d + '/patch.diff'] + by, capture_output=True, text=True).stdout
+    if only and n not in only:
+        continue
+    r = subprocess.run(['tools/try_patch_par.sh', d + '/patch.diff'], capture_output=True, text=True, env=dict(os.environ, WIDTH='400')).stdout
     cur = None
     res = {}
     for line in r.splitlines():
         mm = re.match(r'== (C\d\d) exit=(\d)', line)
         if mm:
             cur = mm.group(1)
-            res[cur] = {'exit': int(mm.group(2)), 'rules': []}
+            if mm.group(2) == '1':
+                res[cur] = []
             continue
-        mm = re.search(r'\[([A-Z0-9\-]+)\]', line)
-        if mm and cur and mm.group(1) not in res[cur]['rules']:
-            res[cur]['rules'].append(mm.group(1))
+        mm = re.search(r'\[([A-Z0-9\-\*]+)\]', line)
+        if mm and cur in res and mm.group(1) not in res[cur]:
+            res[cur].append(mm.group(1))
     out[n] = res
-    print(n, {k: v['rules'] for k, v in res.items()})
-json.dump(out, open('seeded/CATCH_MATRIX.json', 'w'), indent=1)
+    print(n, res, flush=True)
+    if n.startswith('r3-'):
+        m = json.load(open(d + '/meta.json'))
+        m['checks_that_report_it'] = sorted(res)
+        json.dump(m, open(d + '/meta.json', 'w'), indent=1)
+    json.dump(out, open(path, 'w'), indent=1)
 PY
